@@ -29,6 +29,7 @@ def plan(tier, seed):
         specs.append({'kind': 'random', 'count': 150 if tier == 'quick' else 600,
                       'maxlen': 4096 if tier == 'quick' else 65536})
     specs.append({'kind': 'file', 'count': 6 if tier == 'quick' else 40})
+    specs.append({'kind': 'history', 'count': 40 if tier == 'quick' else 400})
     return specs
 
 
@@ -100,6 +101,9 @@ def run_shard(spec, ctx):
             _rt(ctx, lua, bs, 'random')
             if i == 0:
                 ctx.sample({'random_bytes_prefix': bs[:24], 'len': n})
+    elif kind == 'history':
+        history(ctx, lua, rng, spec['count'])
+        ctx.sample({'history': 'unicode_to_p8scii on a bare arrow without its variation selector, then all singles + 256 pairs'})
     elif kind == 'file':
         from pico8.game.formatter.p8 import P8Formatter
         from pico8.game import game
@@ -113,21 +117,68 @@ def run_shard(spec, ctx):
             code = b''.join(lines)
             ctx.case(code)
             ctx.feature('file_cases')
-            g = game.Game.make_empty_game()
-            g.lua = lua.Lua.from_lines([code], version=8)
+            version = (0, 1, 8, 33)[i % 4]
+            entry = ('stream', 'path', 'cli')[i % 3]
+            ctx.feature('file_version_%d' % version)
+            ctx.feature('file_entry_' + entry)
+            g = game.Game.make_empty_game(version=version)
+            g.lua = lua.Lua.from_lines([code], version=version)
             buf = io.BytesIO()
             try:
-                P8Formatter.to_file(g, buf)
-                data = buf.getvalue()
-                data.decode('utf-8')
-                g2 = P8Formatter.from_file(io.BytesIO(data))
+                if entry == 'stream':
+                    P8Formatter.to_file(g, buf)
+                    data = buf.getvalue()
+                    data.decode('utf-8')
+                    g2 = P8Formatter.from_file(io.BytesIO(data))
+                else:
+                    import os
+                    import tempfile
+                    from pico8.game import file as p8file
+                    from pico8 import tool
+                    with tempfile.TemporaryDirectory() as d:
+                        p1 = os.path.join(d, 'c.p8')
+                        p8file.to_file(g, p1)
+                        open(p1, 'rb').read().decode('utf-8')
+                        if entry == 'cli':
+                            if tool.main(['-q', 'writep8', p1]):
+                                raise RuntimeError('writep8 failed')
+                            g2 = p8file.from_file(os.path.join(d, 'c_fmt.p8'))
+                        else:
+                            g2 = p8file.from_file(p1)
                 back = b''.join(g2.lua.to_lines())
             except Exception as e:
-                ctx.violation('.p8 path raised %r' % (e,), {'kind': 'file', 'code': code})
+                ctx.violation('.p8 path (%s, version %d) raised %r' % (entry, version, e), {'kind': 'file', 'code': code})
                 continue
             ctx.monitor('file_roundtrips')
             if back != code:
                 ctx.violation('.p8 path changed code bytes', {'kind': 'file', 'code': code})
+
+
+def history(ctx, lua, rng, count):
+    """History monitor: conversions of arbitrary (also invalid) Unicode text happen between round trips; whatever they return
+    or raise, the bijection must still hold afterwards."""
+    stripped = ['\u2b05', '\u27a1', '\u2b07', '\u2b06', '\U0001f17e', '\ufe0f', '\u2b05x', 'a\u27a1', '\u00e9', '\U0001f600', '\u3042\ufe0f',
+                '\u2b05\u2b05', '\x80', '\xa5\xa5', '\u25cb\ufe0f']
+    for i in range(count):
+        text = rng.choice(stripped) if rng.random() < 0.7 else ''.join(chr(rng.choice((rng.randrange(0x20, 0x3000), rng.randrange(0x1f000, 0x1f700))))
+                                                                         for _ in range(rng.randint(1, 6)))
+        try:
+            lua.unicode_to_p8scii(text)
+            ctx.feature('foreign_text_accepted')
+        except Exception:
+            ctx.feature('foreign_text_rejected')
+        ctx.monitor('foreign_conversions')
+        # afterwards: all singles and a slice of the pairs
+        for b in range(256):
+            _rt(ctx, lua, bytes([b]), 'single-after-foreign-text')
+        a = rng.randrange(256)
+        for b in range(256):
+            bs = bytes((a, b))
+            ctx.case(bs + b'@%d' % i)
+            _rt(ctx, lua, bs, 'pair-after-foreign-text')
+        if ctx.vcounts:
+            return
+    ctx.feature('history_done')
 
 
 def replay(case, ctx):
@@ -151,6 +202,11 @@ def gates(m, tier):
         missed.append('prefix check incomplete')
     if mon.get('file_roundtrips', 0) < 1:
         missed.append('.p8 path never exercised')
+    for k in ('file_version_0', 'file_version_33', 'file_entry_stream', 'file_entry_path', 'file_entry_cli', 'history_done'):
+        if f.get(k, 0) < 1:
+            missed.append('%s never seen' % k)
+    if mon.get('foreign_conversions', 0) < 20:
+        missed.append('foreign conversions: %d' % mon.get('foreign_conversions', 0))
     for k in range(3):
         if f.get('random_mode_%d' % k, 0) < 10:
             missed.append('random mode %d under-sampled' % k)
